@@ -41,6 +41,7 @@ class Harness:
         self.note = []
         self.features = None
         self.cbmc_args = None
+        self.prop_tier = {}
         self.replay = "playback"   # playback | trace (stubbed harnesses cannot be played back natively)
 
     def to_dict(self):
@@ -97,7 +98,16 @@ def _parse_file(path, modpath):
                 elif cur is None:
                     continue
                 elif key == "props":
-                    cur.props = val.split()
+                    # "C09 C03:thorough" = quick for C09 (per @tier), only in the thorough tier for C03
+                    cur.props = []
+                    cur.prop_tier = {}
+                    for x in val.split():
+                        if ":" in x:
+                            a, b = x.split(":")
+                            cur.props.append(a)
+                            cur.prop_tier[a] = b
+                        else:
+                            cur.props.append(x)
                 elif key == "tier":
                     cur.tier = val
                 elif key == "variant":
